@@ -12,7 +12,8 @@ MAXGAP = 5
 
 
 def obligations(tier):
-    tfs = ["T5", "H1"] if tier == "quick" else ["S5", "T1", "T5", "T45", "H1", "H4", "D1"]
+    # H12 and D1 with a span of 5 buckets reach gaps longer than a day
+    tfs = ["T5", "H12", "D1"] if tier == "quick" else ["S5", "T1", "T5", "T45", "H1", "H4", "H12", "D1", "D2"]
     n = 3 if tier == "quick" else 4
     obs = []
     for tf in tfs:
@@ -60,8 +61,8 @@ def run(ctx, P):
 
 
 META = dict(
-    bounds=dict(quick=f"N=3 candles, timeframes T5/H1, timestamps spanning at most {MAXGAP} buckets (one or two gaps of any size inside), schedules: construction (+1 recollapse), one-by-one, 1 preloaded, every two-chunk split",
-                thorough=f"N=4, timeframes S5,T1,T5,T45,H1,H4,D1, span <= {MAXGAP} buckets"),
+    bounds=dict(quick=f"N=3 candles, timeframes T5/H12/D1 (gaps longer than a day inside), timestamps spanning at most {MAXGAP} buckets (one or two gaps of any size inside), schedules: construction (+1 recollapse), one-by-one, 1 preloaded, every two-chunk split",
+                thorough=f"N=4, timeframes S5,T1,T5,T45,H1,H4,H12,D1,D2, span <= {MAXGAP} buckets"),
     stubs=["datetime -> integer seconds", "UTC", "max/min -> If-terms"],
     assumptions=["gaps longer than the span bound are outside the claim (the fill loop runs once per missing bucket)"],
     explanation="library fill vs an independent reference fill on the same symbolic stream; contiguity, inserted-candle shape, equality with the no-fill run and schedule independence decided by z3 per path",
